@@ -51,9 +51,14 @@ def _bool(x):
     return bool(x) if x in (0, 1) else x
 
 
+class _MissionHeader(uh.PrimaryHeader):
+    """A downstream header class (adds nothing): library code must treat it as the PrimaryHeader it is."""
+
+
 def _phdr(l):
     scid, sd, vcid, mp, fl, byp, prot, ocf, n, has, cnt = l
-    return uh.PrimaryHeader(scid=scid, src_dest=_sd(sd), vcid=vcid, map_id=mp, frame_len=fl,
+    cls = _MissionHeader if isinstance(scid, int) and scid % 4 == 3 else uh.PrimaryHeader
+    return cls(scid=scid, src_dest=_sd(sd), vcid=vcid, map_id=mp, frame_len=fl,
                             bypass_seq_ctrl_flag=uh.BypassSequenceControlFlag(byp) if byp in (0, 1) else byp,
                             prot_ctrl_cmd_flag=uh.ProtocolCommandFlag(prot) if prot in (0, 1) else prot,
                             op_ctrl_flag=_bool(ocf), vcf_count_len=n, vcf_count=cnt if has else None)
